@@ -29,9 +29,6 @@ pub async fn handle_did_open_text_document(
     state.documents.handle_open_file(&uri).await;
 
     send_new_compilation_request(state, session.clone(), &uri, None, false, sync_workspace);
-    #[cfg(fuellabs_sway_verif)]
-    sway_utils::verif::step("H.openSet", "");
-    state.is_compiling.store(true, Ordering::SeqCst);
     state.wait_for_parsing().await;
     state
         .publish_diagnostics(uri, params.text_document.uri, session)
@@ -74,6 +71,13 @@ fn send_new_compilation_request(
             // until the channel has no more of them.
         }
     }
+
+    // From here on a compilation is pending or running: `wait_for_parsing` must not return
+    // before the worker has picked this request up and finished it. The flag has to be raised
+    // here -- after the retrigger decision above and before the request becomes visible to the
+    // worker -- because a store made after `send` races with the worker resetting the flag at
+    // the end of that very compilation, leaving it `true` with nothing running.
+    state.is_compiling.store(true, Ordering::SeqCst);
 
     #[cfg(fuellabs_sway_verif)]
     sway_utils::verif::step("H.send", "");
